@@ -97,9 +97,11 @@ def peel_off_esc_code(s: str) -> Tuple[str, Optional[Token], str]:
                 (?P<command>""" + '[\x40-\x7e]))' + r"""
             (?P<rest>.*)"""
     # fmt: on
-    m1 = re.match(p, s, re.VERBOSE)  # multibyte esc seq
+    m1 = re.match(p, s, re.VERBOSE | re.DOTALL)  # multibyte esc seq
     m2 = re.match(
-        "(?P<front>.*?)(?P<seq>(?P<csi>)(?P<command>[\x40-\x5f]))(?P<rest>.*)", s
+        "(?P<front>.*?)(?P<seq>(?P<csi>)(?P<command>[\x40-\x5f]))(?P<rest>.*)",
+        s,
+        re.DOTALL,
     )  # 2 byte escape sequence
     m = None  # Optional[Match[str]]
     if m1 and m2:
